@@ -327,13 +327,23 @@ CHECKS = [
      "C16_rates_match (rates of the object, never NaN), C16_closed_form / C16_length / C16_roc_wellformed (bands = "
      "aggregate(rule-of-three(bootstrap intervals)); (n,2), NaN-free, ordered, within [0,1] given ordered intervals in [0,1] and "
      "0 <= pow <= 1), C16_identity_interval (all replicates equal => quantile/BC/BCa limits = (estimate, estimate)) and "
-     "C16_identity_closed_form, C16_sjr_ordered, C16_pointwise_band, C16_spec_* (executable predicates hold of the model). Tied "
+     "C16_identity_closed_form, C16_sjr_ordered, C16_pointwise_band, C16_spec_* (executable predicates hold of the model); for "
+     "fixed_width_band_ci the deterministic core is modelled (SA/Model/FixedWidth.lean: _displace_curve, np.interp on monotone "
+     "tables, _is_contained, the _find_tube_radius bisection, the quantile of the radii, the band assembly) and C16_fwb_total / "
+     "_shape / _ordered / _range / _wellformed / _scores_wellformed (for every curve of a Scores object with both classes "
+     "non-empty, every non-empty list of radii in [0,1), every alpha and slope k >= 0 the call returns and the bands are (n,2), "
+     "NaN-free and ordered), C16_fwb_radius_grid / _bracket / _bisect_fuel (the radius is 0 or (2m+1)/256 in (0,1): delta >= 0), "
+     "C16_fwb_contained_monotone, C16_fwb_monotone_delta, C16_fwb_curve_monotone (from C15_monotone), with kernel-checked "
+     "counterexamples to 'the band contains the curve' (C16_fwb_not_contains_curve*, replayed on the real code; not claimed). Tied "
      "to /repo by real calls of the four band functions over all 16 combinations of supplied fnr/fpr/thresholds/nb_points, 8 "
      "axes, 4 alphas, 3 bootstrap methods, identity and 6 built-in sampler configurations (recorded _apply_rule_of_three / "
      "_aggregate_rectangles / Scores.bootstrap_ci calls; joint interval recomputed under the same seed), by direct calls of the "
      "two helpers (incl. NaN entries), and by evaluating the Lean predicates on the implementation's own outputs.",
-     BASE_NOTE + "fixed_width_band_ci is NOT modelled: accepts-arguments / rates / (n,2) / NaN-free / ordered are evaluated on "
-     "the implementation only (supports with >= 3 points; with exactly 2 support points every call raises ValueError). The joint "
+     BASE_NOTE + "fixed_width_band_ci: the bootstrap samples are not modelled (their rates enter as the recorded arguments of "
+     "_find_tube_radius); every real call is tied to the model through recorded _find_tube_radius / _displace_curve / bootstrap_ci "
+     "calls (1e-9, plus a near-tie rule for containment tests decided within rounding distance) - differences in these internals "
+     "are reported as a broken correspondence, only accepts-arguments / rates / (n,2) / NaN-free / ordered as violations "
+     "(supports with >= 3 points; with exactly 2 support points every call raises ValueError). The joint "
      "bootstrap interval, math.pow(alpha,1/n), ksone.ppf and np.nextafter are oracles; exact rates k/m decide the rule-of-three "
      "trigger (same decision as the float comparison); the number of extra support points is taken from the implementation's "
      "own plain support (C15); thresholds compared as sorted multisets to 1e-9, band values to 1e-12.",
